@@ -60,7 +60,7 @@ def gen_scenario(rng, prof=None):
             lines.append(f"net {k} {rng.choice([fbits(0.5), fbits(0.25), '2', '0', fbits(0.9)])}")
     for n in nodes:
         if rng.random() < prof["p_skew"]:
-            lines.append(f"skew {n} {rng.choice([1, 3, fbits(0.125), 10])}")
+            lines.append(f"skew {n} {rng.choice([1, 3, fbits(0.125), 10, fbits(-0.5), fbits(-2.0), fbits(-0.125)])}")
     crashed = set()
     ops = []
     pending_locals = list(locals_)
@@ -144,7 +144,9 @@ def gen_link_matrix(rng):
         for _ in range(rng.randint(1, 6)):
             a, b = rng.sample(nodes, 2)
             lines.append("net " + rng.choice([f"disable {a} {b}", f"enable {a} {b}", f"enable {b} {a}", f"disable {b} {a}",
-                                             f"partition {a} / {b}", f"drop_in {a}", f"pass_in {a}", f"drop_out {a}", f"pass_out {a}",
+                                             f"partition {a} / {b}", f"partition {a} / {' '.join(x for x in nodes if x != a)}",
+                                             f"partition {' '.join(x for x in nodes if x != b)} / {b}",
+                                             f"drop_in {a}", f"pass_in {a}", f"drop_out {a}", f"pass_out {a}",
                                              f"disconnect {a}", f"connect {a}", "reset"]))
         if rng.random() < 0.3:
             # a node goes down and comes back with its processes: the link controls in force are not touched by that
